@@ -60,10 +60,10 @@ def lex_mol2(raw: str) -> dict:
         el = toks[5].split(".")[0]
         ok = el in SYMBOLS or el in ("Du", "LP", "Any", "Hal", "Het", "Hev")
         hq = len(toks) >= 9 and _isfloat(toks[8])
-        return {"k": "atom", "ok": ok, "hq": hq, "lab": toks[1], "x": ua(toks[2]), "y": ua(toks[3]), "z": ua(toks[4]),
+        return {"k": "atom", "n": int(toks[0]), "ok": ok, "hq": hq, "lab": toks[1], "x": ua(toks[2]), "y": ua(toks[3]), "z": ua(toks[4]),
                 "q": me(toks[8]) if hq else 0, "ty": toks[5], "nt": len(toks)}
     if 4 <= len(toks) <= 6 and all(_isint(t) for t in toks[:3]):
-        return {"k": "bond", "a1": int(toks[1]), "a2": int(toks[2]), "ok": toks[3] in BOND_WORDS, "bt": toks[3],
+        return {"k": "bond", "n": int(toks[0]), "a1": int(toks[1]), "a2": int(toks[2]), "ok": toks[3] in BOND_WORDS, "bt": toks[3],
                 "nt": len(toks)}
     return _text(s, toks)
 
@@ -379,6 +379,55 @@ class Damager:
             out.append([["bins", p, rnd.choice(["ff", "80", "c0"])]])
             if closed:
                 out.append([["bins", p, "c3a9"]])
+        return out
+
+    def valid_other(self, idx, rnd: random.Random):
+        """a token replaced by ANOTHER VALID value of its column (mol2): the serial number of a record (atom id, bond id)
+        duplicated from another record of the block / off by one / swapped with the next record's, the substructure id off
+        by one, a bond endpoint off by one across the border of 1..n_atoms.  (An endpoint that stays inside 1..n_atoms, a
+        coordinate, a type: another well-formed text, not generated.)"""
+        out = []
+        if self.fmt != "mol2":
+            return out
+        hdr = count_lines(self.fmt, self.L)
+        for i in idx:
+            lx, toks = self.L[i - 1], self.lines[i - 1].split()
+            isbond = lx["k"] == "bond" or (lx["k"] == "ints" and 4 <= lx["nt"] <= 6 and (i - 1) not in hdr)
+            if lx["k"] != "atom" and not isbond:
+                continue
+            n = int(toks[0])
+            out.append([["tok", i, 0, str(n + 1)]])
+            if n > 1:
+                out.append([["tok", i, 0, str(n - 1)]])
+                out.append([["tok", i, 0, "1"]])
+            nxt = self.L[i] if i < len(self.L) else None
+            if nxt is not None and nxt["k"] == lx["k"] and nxt["nt"] == lx["nt"]:
+                out.append([["tok", i, 0, self.lines[i].split()[0]], ["tok", i + 1, 0, toks[0]]])      # swapped
+            if lx["k"] == "atom" and lx["nt"] >= 7 and _isint(toks[6]):
+                out.append([["tok", i, 6, str(int(toks[6]) + 1)]])
+            if isbond:
+                h = max((j for j in hdr if j < i - 1), default=None)
+                na = self.L[h]["c"][0] if h is not None else None
+                for j in (1, 2):
+                    e = int(toks[j])
+                    if e == 1:
+                        out.append([["tok", i, j, "0"]])
+                    if na is not None and e == na:
+                        out.append([["tok", i, j, str(na + 1)]])
+        return out
+
+    def border_bonds(self):
+        """1-based indices of bond lines that touch atom 1 or atom n_atoms (an off-by-one there leaves the range)"""
+        hdr = count_lines(self.fmt, self.L)
+        out = []
+        for i0, lx in enumerate(self.L):
+            if lx["k"] == "bond" or (lx["k"] == "ints" and 4 <= lx["nt"] <= 6 and i0 not in hdr):
+                h = max((j for j in hdr if j < i0), default=None)
+                if h is None:
+                    continue
+                ends = (lx["a1"], lx["a2"]) if lx["k"] == "bond" else (lx["c"][1], lx["c"][2])
+                if 1 in ends or self.L[h]["c"][0] in ends:
+                    out.append(i0 + 1)
         return out
 
     def count_changes(self):
